@@ -227,6 +227,16 @@ func (p c05) Exec(c *fw.Ctx, u *fw.Unit) {
 			c128Check(c, fd, true)
 		}
 	case "c128.decorated":
+		// structured payloads: symbology identifiers, GS1 element strings with GS, ISO 15434
+		// envelopes — ordinary characters to this encoder, every one must come back
+		for _, sp := range structuredPayloads() {
+			c128Check(c, string(sp), false)
+			c128Check(c, string(sp), true)
+		}
+		for _, s := range []string{"]C1", "]C1AB", "]C110X\x1d21Y", "]C0AB", "]c1ab", "AB]C1", "\x1d", "A\x1dB", "\x1d\x1d", "]C1\x1d", "ñ]C1", "]C1ñ0112345678901231", "[FNC1]01", "{FNC1}", "^FNC1", "\\F", "~1", "~d029"} {
+			c128Check(c, s, false)
+			c128Check(c, s, true)
+		}
 		for _, base := range []string{"Code128", "12345678", "a1"} {
 			for _, d := range decorate([]byte(base)) {
 				c128Check(c, string(d), false)
